@@ -295,6 +295,40 @@ func (c *Checker) RunGoals(goals []*Goal, timeout time.Duration) []*ObligResult 
 		}()
 	}
 	wg.Wait()
+	// second chance for undecided queries: re-run them a few at a time with a
+	// three times longer limit (timeouts under machine load must not become alarms)
+	var retry []int
+	for i, x := range results {
+		if x.r != nil && x.g.Expect == "unsat" && x.r.Status != "unsat" && x.r.Status != "sat" {
+			retry = append(retry, i)
+		}
+	}
+	if len(retry) > 0 && len(retry) <= 40 {
+		old := c.Solver.Timeout
+		c.Solver.Timeout = 3 * old
+		sem := make(chan struct{}, 4)
+		var wg2 sync.WaitGroup
+		for _, i := range retry {
+			i := i
+			wg2.Add(1)
+			sem <- struct{}{}
+			go func() {
+				defer wg2.Done()
+				defer func() { <-sem }()
+				g := results[i].g
+				q := g.Raw
+				if q == "" {
+					q = RenderQuery(c.E.Specs.Prelude, g.Prefix, g.Goal, lazyDecls(g))
+				}
+				r := c.Solver.SolveFresh(g.Oblig+"-retry", q)
+				if r.Status == "unsat" || r.Status == "sat" {
+					results[i] = gr{g, r}
+				}
+			}()
+		}
+		wg2.Wait()
+		c.Solver.Timeout = old
+	}
 	byName := map[string]*ObligResult{}
 	var order []string
 	for _, x := range results {
